@@ -7,6 +7,7 @@ import (
 	"fmt"
 	"io"
 	"sort"
+	"strings"
 
 	"github.com/glebziz/fs_db"
 	"github.com/glebziz/fs_db/internal/model"
@@ -203,7 +204,22 @@ func (a *actors) apply(ctx context.Context, o Op) OpResult {
 			r.Err = s.Set(ctx, o.Key, b)
 			scribble(b) // the slice is the caller's again once Set has returned
 		case "setr":
-			r.Err = s.SetReader(ctx, o.Key, &shapedReader{b: payload(o.ID, o.Size), shape: o.Shape})
+			var src io.Reader = &shapedReader{b: payload(o.ID, o.Size), shape: o.Shape}
+			if o.Shape == "preread" {
+				// a reader that knows its total size and has been read in part already (a header was
+				// consumed): what is to be stored is what is LEFT in it
+				junk := 1 + int(o.ID%700)
+				br := bytes.NewReader(append(make([]byte, junk), payload(o.ID, o.Size)...))
+				io.CopyN(io.Discard, br, int64(junk))
+				src = br
+			}
+			if o.Shape == "prereadstr" {
+				junk := 1 + int(o.ID%700)
+				sr := strings.NewReader(strings.Repeat("#", junk) + string(payload(o.ID, o.Size)))
+				io.CopyN(io.Discard, sr, int64(junk))
+				src = sr
+			}
+			r.Err = s.SetReader(ctx, o.Key, src)
 		case "create":
 			f, err := s.Create(ctx, o.Key)
 			if err != nil {
